@@ -12,5 +12,5 @@ func VerifIsEmptyField(structPtr interface{}, i int, recursive bool) bool {
 	return isEmptyValue(rv, nil, recursive)
 }
 
-// VerifSafeMode reports whether this build uses the reflect-only helpers.
-func VerifSafeMode() bool { return safeMode }
+// VerifC05SafeMode reports whether this build uses the reflect-only helpers.
+func VerifC05SafeMode() bool { return safeMode }
